@@ -53,6 +53,9 @@ def _address_all(res, ctx):
     res.add(o2)
 
 
+CONFORMANCE = {"_index": [{"matrix_list": [[1, 2], [3, 4]], "row_number": 2, "column_number": 1, "area_number": 1}, {"matrix_list": [[1, 2], [3, 4]], "row_number": 3, "column_number": 1, "area_number": 1}, {"matrix_list": [[1], [2], [3]], "row_number": 3, "column_number": 1, "area_number": 1}, {"matrix_list": [[1, 2, 3]], "row_number": 1, "column_number": 4, "area_number": 1}], "_match/exact": [{"lookup_value": 2, "lookup_array": [[1], [{"$f": "2.0"}], [3]], "match_type": 0}, {"lookup_value": "b", "lookup_array": [["a"], ["B"]], "match_type": 0}, {"lookup_value": 5, "lookup_array": [[1], [2]], "match_type": 0}, {"lookup_value": 1, "lookup_array": [["x"], [{"$e": 1}], [1]], "match_type": 0}], "_match/approx/num": [{"lookup_value": {"$f": "2.5"}, "lookup_array": [[1], [2], [3]], "match_type": 1}, {"lookup_value": 9, "lookup_array": [[1], [2], [3]], "match_type": 1}, {"lookup_value": 0, "lookup_array": [[1], [2]], "match_type": 1}], "_vlookup/exact": [{"lookup_value": 2, "table_array": [[1, "a"], [2, "b"], [2, "c"]], "col_index_num": 2, "range_lookup": False}, {"lookup_value": "x", "table_array": [[1, "a"]], "col_index_num": 1, "range_lookup": False}], "_vlookup/approx": [{"lookup_value": {"$f": "2.5"}, "table_array": [[1, "a"], [2, "b"], [3, "c"]], "col_index_num": 2, "range_lookup": True}, {"lookup_value": 9, "table_array": [[1, "a"], [2, "b"], [3, "c"]], "col_index_num": 2, "range_lookup": True}], "_xmatch/exact": [{"lookup_value": 2, "lookup_array": [[2], [1], [2]], "match_mode": 0, "search_mode": -1}, {"lookup_value": 2, "lookup_array": [[2], [1], [2]], "match_mode": 0, "search_mode": 1}]}
+
+
 def run(ctx):
     res = PropResult('C14')
     K.k1_block(res, ctx, MOD, K1, 'C14.')
@@ -61,6 +64,7 @@ def run(ctx):
     K.canary_contract(res, MOD, '_index', 'element',
                       'implies(I(row_number) <= len(matrix_list) and I(column_number) <= len(matrix_list[0]), '
                       'result == matrix_list[I(row_number)][I(column_number) - 1])')
+    K.conformance(res, 'contracts.rt', CONFORMANCE)
     K.monitor_if_present(res, ctx, 'mon_c14')
     res.trusted_base += ['L-SUBST', 'str.lower modelled as an uninterpreted idempotent length-preserving function (A-STR)']
     res.assumptions += ['A-REAL', 'A-STR', 'approximate MATCH with a TEXT lookup value is covered by the bounded monitor only '
